@@ -460,6 +460,11 @@ class Interp:
             props = obj.attrs.get("__props__")
             if props and name in props:
                 return props[name]()
+            if obj.attrs.get("__partial__"):
+                # a hand-built stand-in for a run-time object lists the attributes the rules know about, not all the object has:
+                # a read of another one is not an AttributeError of the program, it is the end of what this model can say
+                raise AnalysisError(f"minieval: the stand-in for {obj.name} models no attribute `{name}` "
+                                    f"(read at line {getattr(node, 'lineno', '?')})")
             raise Raised("AttributeError", node)
         if isinstance(obj, NewType):
             if name == "__name__":
